@@ -24,9 +24,11 @@ CASE_TIMEOUT = 5.0
 MOD = __name__
 OPS = ["==", "!=", "in", "not in"]
 POOL = ["", "a", "ab", "abc", "b", "bc", "linux", "linux2", "win32", "a b", "x y", "win", "darwin cygwin linux"]
-CAND = POOL + ["c", "lin", "nux2", " ", "abcd", "zz", "y", "x", "cygwin", "darwin", "win3", "32"]
+# ... and under letter case (comparison and containment are case-sensitive) and list-like punctuation
+POOL += ["A", "Linux", "AMD64 amd64", "x86,x86_64"]
+CAND = POOL + ["c", "lin", "nux2", " ", "abcd", "zz", "y", "x", "cygwin", "darwin", "win3", "32", "amd64", "AMD64", "x86", "x86_64", "LINUX", "aB", ","]
 META = {
-    "rule": "All ordered pairs of (operator, literal) specifiers over a 13-literal pool closed under the relations the "
+    "rule": "All ordered pairs of (operator, literal) specifiers over a 17-literal pool closed under the relations the "
     "case table inspects, both & and |, plus ~ of every specifier, each evaluated on 25 candidate strings "
     "(exhaustive); Hypothesis adds random literals over {a,b,c,' '}. Non-trivial = the table returned a result "
     "(did not raise NotImplementedError) and the two literals are related (equal / substring / superstring); "
